@@ -49,7 +49,7 @@ type Scenario struct {
 	CRLF           bool     `json:"crlf,omitempty"`
 	NoFinalNL      bool     `json:"no_final_nl,omitempty"`
 	Bulk           int      `json:"bulk,omitempty"`       // >0: blocks of this many own-line comment lines are inserted (large files)
-	Light bool `json:"light,omitempty"` // no very long comments (used with -d, whose parser trace is enormous)
+	Light          bool     `json:"light,omitempty"`      // no very long comments (used with -d, whose parser trace is enormous)
 	AsciiHead      int      `json:"ascii_head,omitempty"` // >0: the first AsciiHead bytes of the file are pure ASCII (filler comment lines), non-ASCII comments only after
 	Break          int      `json:"break,omitempty"`      // >0: token damage of kind Break-1 on line BreakLine (source must then fail to parse)
 	BreakLine      int      `json:"break_line,omitempty"`
@@ -59,6 +59,10 @@ type Scenario struct {
 	DstPrefillSeed uint64   `json:"dst_prefill_seed,omitempty"`
 	LstKind        string   `json:"lst_kind,omitempty"` // ok | parent_missing
 	Uid            int      `json:"uid"`
+	Env            []string `json:"env,omitempty"`    // extra environment of the command (locale, TZ, ...)
+	Stdout         string   `json:"stdout,omitempty"` // "" (pipe, captured) | closed | devfull
+	Argv0          string   `json:"argv0,omitempty"`  // invoke the command through a symlink of this name
+	SrcMtime       int64    `json:"src_mtime,omitempty"`
 	Fault          *Fault   `json:"fault,omitempty"`
 }
 
@@ -404,6 +408,10 @@ func (s *Scenario) buildWorld(W string, src []byte, image []byte) (*worldPaths, 
 	default:
 		panic(modelErr("unknown src kind " + s.SrcKind))
 	}
+	if s.SrcMtime != 0 {
+		t := time.Unix(s.SrcMtime, 0)
+		os.Chtimes(srcAbs, t, t) // ignored for kinds without a file
+	}
 	wp.SrcAbs, wp.SrcArg = srcAbs, srcAbs
 	switch s.SrcKind {
 	case "emptyarg":
@@ -715,6 +723,9 @@ func judge(s *Scenario, e expectation, o *ScenarioOutcome, image []byte, imageCl
 		if o.Exit == 0 {
 			return mk("R3-parse-error-status", "source does not parse but exit status is 0", "non-zero", "exit 0")
 		}
+		if s.Stdout != "" {
+			break // the message went to a closed / full stdout: nothing to read the position from
+		}
 		okPos := false
 		for _, m := range posRe.FindAllStringSubmatch(o.Output, -1) {
 			ln, _ := strconv.Atoi(m[1] + m[2] + m[3])
@@ -863,7 +874,21 @@ func (c *c19Ctx) execute(s *Scenario, keepDir bool) (out *ScenarioOutcome, viol 
 					"-e", fmt.Sprintf("inject=%s:error=%s:when=%d", f.Syscall, f.Errno, f.When), "-P", target)
 			}
 		}
-		cmd = append(cmd, c.sim.b.Cli)
+		bin := c.sim.b.Cli
+		if s.Argv0 != "" {
+			ln := filepath.Join(dir, s.Argv0)
+			os.Remove(ln)
+			if err := os.Symlink(bin, ln); err == nil {
+				bin = ln
+			}
+		}
+		switch s.Stdout {
+		case "closed":
+			cmd = append(cmd, "/bin/sh", "-c", `exec "$@" >&-`, "sh")
+		case "devfull":
+			cmd = append(cmd, "/bin/sh", "-c", `exec "$@" >/dev/full`, "sh")
+		}
+		cmd = append(cmd, bin)
 		cmd = append(cmd, argv...)
 		out.Cmdline = cmd
 		var feederDone chan struct{}
@@ -877,10 +902,10 @@ func (c *c19Ctx) execute(s *Scenario, keepDir bool) (out *ScenarioOutcome, viol 
 				}
 			}()
 		}
-		pr := runProcStdin(cliWatchdog, W, baseEnv("GOMAXPROCS=1", "HOME=/nonexistent"), wp.stdinData, cmd...)
+		pr := runProcStdin(cliWatchdog, W, baseEnv(append([]string{"GOMAXPROCS=1", "HOME=/nonexistent"}, s.Env...)...), wp.stdinData, cmd...)
 		if pr.TimedOut && !wp.isFifo {
 			// a loaded machine, not necessarily a hang: one more try with four times the budget
-			pr = runProcStdin(4*cliWatchdog, W, baseEnv("GOMAXPROCS=1", "HOME=/nonexistent"), wp.stdinData, cmd...)
+			pr = runProcStdin(4*cliWatchdog, W, baseEnv(append([]string{"GOMAXPROCS=1", "HOME=/nonexistent"}, s.Env...)...), wp.stdinData, cmd...)
 		}
 		if feederDone != nil {
 			// release a feeder that nobody read from (gosk never opened the source)
